@@ -451,6 +451,23 @@ def handle (st : DState) (line : String) : String × DState :=
        | .ok (o, evs, _) => ("res=ok ev=" ++ listOrDash evs ++ " st=" ++ stateStr o, { st with w := { st.w with orb := o } })
        | .err t => ("res=err ev=- st=" ++ stateStr st.w.orb ++ " tag=" ++ t, st)
        | .panic s => ("res=panic ev=- st=" ++ stateStr st.w.orb ++ " tag=" ++ s, st))
+  | "acth" :: a :: d :: aid :: k :: rest =>
+    (match parseInt a, unhxS d, parseInt aid, parseNat k with
+     | some amt, some denom, some aid, some n =>
+       (match buildInfos n rest with
+        | none => ("bad-op", st)
+        | some (infos, _) =>
+          match newTransferAttrs PROTOCOL_IBC "channel-0" denom amt with
+          | .ok t =>
+            if infos.any Option.isNone then ("res=err dst=" ++ hxS t.dstDenom ++ ":" ++ intToDec t.dstAmount ++ " bal=-", st) else
+            let w1 := { st.w with bank := st.w.bank.mint st.cfg.orbAddr denom amt.toNat }
+            let act : Action := { id := aid, attrs := some (.fee (infos.filterMap id)) }
+            (match executorHandle (harnessWiring st.cfg st.swap) noFaults { w := w1 } t act with
+             | .ok (c, t') => ("res=ok dst=" ++ hxS t'.dstDenom ++ ":" ++ intToDec t'.dstAmount ++ " bal=" ++ balDelta c.moves, st)
+             | .err e => ("res=err dst=" ++ hxS t.dstDenom ++ ":" ++ intToDec t.dstAmount ++ " bal=- tag=" ++ e, st)
+             | .panic e => ("res=panic dst=- bal=- tag=" ++ e, st))
+          | _ => ("res=err:attrs dst=- bal=-", st))
+     | _, _, _, _ => ("bad-op", st))
   | "msgh" :: rest =>
     (match parseMsg rest with
      | none => ("bad-op", st)
